@@ -15,8 +15,8 @@ import (
 
 func init() {
 	register(&Check{ID: "C02", Run: runC02, Expl: oblig.Explanation{
-		Text: "Static check of the position bookkeeping on which 'the Reader delivers exactly the partition's records from its position, in order' rests. The property quantifies over log layouts and fault sequences and is not decided as a whole; each rule is a necessary condition whose violation loses, repeats or stalls records on some history. (R1) reader.run keeps one position variable: it is what initialize receives, it takes initialize's absolute start offset after a successful initialize and the result of every reader.read, and it is what the next attempt starts from. (R2) reader/connection coherence: the connection keeps its own fetch offset (ReadBatchWith fetches from Conn.offset, Batch.close writes the batch's progress back); therefore any assignment to the position variable inside the read loop that does not come from reader.read must be followed, before the next read on that connection, by Conn.Seek to that position or by leaving the loop for initialize. (R3) reader.read advances the position to msg.Offset+1 only after sendMessage accepted that message, forwards the message it read unchanged, closes the batch on both exits and returns the position. (R4) reader.initialize maps FirstOffset to first, LastOffset to last, anything below first to first, seeks the new connection to that absolute position with range checking and returns the position Seek reports. (R5) Batch: readMessage sets batch.offset to delivered offset+1; jumps to lastOffset+1 only at a clean end (io.EOF from the deadline check, lengthRemain == 0, lastOffset known); a short read is answered by discarding the rest; Batch.close writes batch.offset to Conn.offset whenever the batch still owns a connection, whatever the error; ReadMessage skips records while offset < Conn.offset and reports the offset returned by the last readMessage. (R6) messageSetReader: readMessageV2 charges a record against lengthRemain only after its last byte was read (no read follows the accounting); readMessageV1 discards key and value of records below the requested offset and reads them otherwise. (R7) Reader: FetchMessage drops messages of older versions, and records Offset+1 only for error-free messages of the current version; SetOffset restarts the readers from the new offset when they are running; ReadBatchWith fetches from the connection's own offset. Not decided: exactly-once in-order delivery across every layout (compaction holes, truncated tails, mixed formats) and fault sequence; contents equality (C05 decides the record layouts); timing.",
-		Rule: "one obligation per bookkeeping site",
+		Text:    "Static check of the position bookkeeping on which 'the Reader delivers exactly the partition's records from its position, in order' rests. The property quantifies over log layouts and fault sequences and is not decided as a whole; each rule is a necessary condition whose violation loses, repeats or stalls records on some history. (R1) reader.run keeps one position variable: it is what initialize receives, it takes initialize's absolute start offset after a successful initialize and the result of every reader.read, and it is what the next attempt starts from. (R2) reader/connection coherence: the connection keeps its own fetch offset (ReadBatchWith fetches from Conn.offset, Batch.close writes the batch's progress back); therefore any assignment to the position variable inside the read loop that does not come from reader.read must be followed, before the next read on that connection, by Conn.Seek to that position or by leaving the loop for initialize. (R3) reader.read advances the position to msg.Offset+1 only after sendMessage accepted that message, forwards the message it read unchanged, closes the batch on both exits and returns the position. (R4) reader.initialize maps FirstOffset to first, LastOffset to last, anything below first to first, seeks the new connection to that absolute position with range checking and returns the position Seek reports. (R5) Batch: readMessage sets batch.offset to delivered offset+1; jumps to lastOffset+1 only at a clean end (io.EOF from the deadline check, lengthRemain == 0, lastOffset known); a short read is answered by discarding the rest; Batch.close writes batch.offset to Conn.offset whenever the batch still owns a connection, whatever the error; ReadMessage skips records while offset < Conn.offset and reports the offset returned by the last readMessage. (R6) messageSetReader: readMessageV2 charges a record against lengthRemain only after its last byte was read (no read follows the accounting); readMessageV1 discards key and value of records below the requested offset and reads them otherwise. (R7) Reader: FetchMessage drops messages of older versions, and records Offset+1 only for error-free messages of the current version; SetOffset restarts the readers from the new offset when they are running; ReadBatchWith fetches from the connection's own offset. Not decided: exactly-once in-order delivery across every layout (compaction holes, truncated tails, mixed formats) and fault sequence; contents equality (C05 decides the record layouts); timing.",
+		Rule:    "one obligation per bookkeeping site",
 		Trusted: []string{"go/ssa", "expression shapes with named cells", "CFG path search", "value provenance"},
 	}})
 }
@@ -36,7 +36,7 @@ func calleeName(ins ssa.Instruction) string {
 		return ""
 	}
 	if f := c.Common().StaticCallee(); f != nil {
-		return f.Name()
+		return an.RefFuncName(f)
 	}
 	return ""
 }
@@ -446,7 +446,7 @@ func c02Batch(p *load.Program, r *oblig.Report) {
 	r.RequireCount(rule+" (Conn.offset store in Batch.close)", n, 1)
 	// ReadMessage: skip loop and reported offset
 	okLoop := false
-	for _, b := range RM.Blocks {
+	for _, b := range an.Blocks(RM) {
 		_, ci := an.IfCond(b)
 		if ci == nil || ci.Op != token.LSS {
 			continue
